@@ -7,7 +7,7 @@ Lemma rel_eqb_eq a b : rel_eqb a b = true <-> a = b.
 Proof.
   destruct a, b; cbn [rel_eqb]; split; intro H; try discriminate; try (inversion H; subst);
     repeat rewrite andb_true_iff in *; repeat rewrite N.eqb_eq in *;
-    try (destruct H as [[? ?] ?]); try (destruct H as [? ?]); subst; auto using N.eqb_refl.
+    repeat match goal with H : _ /\ _ |- _ => destruct H end; subst; auto using N.eqb_refl.
 Qed.
 
 Lemma key_eqb_eq a b : key_eqb a b = true <-> a = b.
@@ -352,3 +352,190 @@ Section Ops.
     rewrite E; [exact G|]. left. exists c. apply get_In. exact G.
   Qed.
 End Ops.
+
+(* ---------- the concrete oracle satisfies the freshness hypothesis ---------- *)
+Lemma list_max_ge l x : In x l -> x <= list_max l.
+Proof.
+  induction l as [|y t IH]; [intros []|]. intros [->|H]; unfold list_max; cbn [fold_right]; [lia|].
+  specialize (IH H). unfold list_max in IH. lia.
+Qed.
+
+Lemma oracle_max_fresh s : unused (oracle_max s) s.
+Proof.
+  intros e He Hn. unfold oracle_max in Hn.
+  assert (A : In (list_max (flat_map entry_names s) + 1) (flat_map entry_names s)).
+  { apply in_flat_map. exists e. split; assumption. }
+  apply list_max_ge in A. lia.
+Qed.
+
+(* ---------- C42: copying a root ---------- *)
+Definition no_root (r' : root) (s : store) : Prop := forall e, In e s -> fst (fst e) <> r'.
+
+Lemma get_no_root r' s p : no_root r' s -> get s (r', p) = None.
+Proof. intro H. apply get_None_iff. intros c Hin. apply (H _ Hin). reflexivity. Qed.
+
+Lemma key_eqb_pair r0 p0 r p : key_eqb (r0, p0) (r, p) = N.eqb r0 r && rel_eqb p0 p.
+Proof. reflexivity. Qed.
+
+Lemma get_rekeyed r r' s p :
+  get (map (fun e : key * content => ((r', snd (fst e)), snd e)) (filter (fun e : key * content => N.eqb (fst (fst e)) r) s)) (r', p)
+  = get s (r, p).
+Proof.
+  induction s as [|[[r0 p0] c0] t IH]; cbn [filter map get fst snd]; [reflexivity|].
+  destruct (N.eqb r0 r) eqn:E.
+  - apply N.eqb_eq in E. subst. cbn [map get fst snd]. rewrite !key_eqb_pair, !N.eqb_refl. cbn [andb].
+    destruct (rel_eqb p0 p); [reflexivity | exact IH].
+  - rewrite IH. rewrite key_eqb_pair, E. reflexivity.
+Qed.
+
+Lemma get_rekeyed_other r r' s r0 p : r0 <> r' ->
+  get (map (fun e : key * content => ((r', snd (fst e)), snd e)) (filter (fun e : key * content => N.eqb (fst (fst e)) r) s)) (r0, p) = None.
+Proof.
+  intro N. apply get_None_iff. intros c H. apply in_map_iff in H as [e [E _]]. inversion E. subst. contradiction.
+Qed.
+
+Lemma copy_get_new r r' s p : no_root r' s -> get (copy_root r r' s) (r', p) = get s (r, p).
+Proof. intro H. unfold copy_root. rewrite get_app, (get_no_root _ _ _ H). apply get_rekeyed. Qed.
+
+Lemma copy_get_old r r' s r0 p : r0 <> r' -> get (copy_root r r' s) (r0, p) = get s (r0, p).
+Proof.
+  intro H. unfold copy_root. rewrite get_app. destruct (get s (r0, p)); [reflexivity|]. apply get_rekeyed_other. exact H.
+Qed.
+
+Lemma remove_get r s r0 p : r0 <> r -> get (remove_root r s) (r0, p) = get s (r0, p).
+Proof.
+  intro H. unfold remove_root. induction s as [|[[r1 p1] c1] t IH]; cbn [filter get fst snd]; [reflexivity|].
+  destruct (N.eqb r1 r) eqn:E; cbn [negb].
+  - apply N.eqb_eq in E. subst. unfold key_eqb. cbn [fst snd]. rewrite (proj2 (N.eqb_neq r r0)) by congruence. exact IH.
+  - cbn [get]. destruct (key_eqb (r1, p1) (r0, p)); [reflexivity | exact IH].
+Qed.
+
+Lemma remove_get_gone r s p : get (remove_root r s) (r, p) = None.
+Proof.
+  apply get_None_iff. intros c H. unfold remove_root in H. apply filter_In in H as [_ H]. cbn [fst] in H.
+  rewrite N.eqb_refl in H. discriminate.
+Qed.
+
+Lemma frag_local_files f : frag_local f = true -> forall fr, In fr (f_files f) -> fr_base fr = None.
+Proof.
+  unfold frag_local. rewrite andb_true_iff. intros [H _] fr Hfr. rewrite forallb_forall in H. specialize (H fr Hfr).
+  destruct (fr_base fr); [discriminate | reflexivity].
+Qed.
+
+Lemma frag_local_del f d : frag_local f = true -> f_del f = Some d -> dr_base d = None.
+Proof.
+  unfold frag_local. rewrite andb_true_iff. intros [_ H] E. rewrite E in H. destruct (dr_base d); [discriminate | reflexivity].
+Qed.
+
+(* a manifest without base ids read at r' over a store that holds under r' what s holds under r *)
+Lemma open_man_copy s s' r r' m : man_local m = true -> (forall p, get s' (r', p) = get s (r, p)) ->
+  open_man s' r' m = open_man s r m.
+Proof.
+  intros L H. unfold man_local in L. apply andb_true_iff in L as [LF LI]. rewrite forallb_forall in LF, LI.
+  unfold open_man. f_equal; [f_equal|].
+  - f_equal. apply map_ext_in. intros f Hf. specialize (LF f Hf). unfold open_frag. f_equal; [f_equal|].
+    + apply map_ext_in. intros fr Hfr. rewrite (frag_local_files f LF fr Hfr). unfold deref, ref_key, base_root. apply H.
+    + destruct (f_del f) as [d|] eqn:Ed; [|reflexivity]. cbn [option_map]. f_equal. rewrite (frag_local_del f d LF Ed).
+      unfold deref, ref_key, base_root. apply H.
+  - apply map_ext_in. intros i Hi. specialize (LI i Hi). destruct (ix_base i) eqn:E; [discriminate|].
+    f_equal. unfold deref, ref_key, base_root. apply H.
+  - destruct (m_txn m); [|reflexivity]. cbn [option_map]. f_equal. apply H.
+Qed.
+
+Lemma snapshot_copy s s' r r' v m : get s (r, RManifest v) = Some (CMan m) -> man_local m = true ->
+  (forall p, get s' (r', p) = get s (r, p)) -> snapshot r' v s' = snapshot r v s.
+Proof.
+  intros G L H. unfold snapshot, open. rewrite H, G. cbn [option_map]. f_equal. apply open_man_copy; assumption.
+Qed.
+
+(* ---------- C42: histories never introduce a base id ---------- *)
+Lemma new_frags_local first ns bs : forallb frag_local (new_frags first ns bs) = true.
+Proof.
+  revert first bs. induction ns as [|n t IH]; intros first [|b bs]; cbn [new_frags forallb]; try reflexivity.
+  rewrite IH. reflexivity.
+Qed.
+
+Lemma set_del_local rv id fid fs : forallb frag_local fs = true -> forallb frag_local (map (set_del rv id fid) fs) = true.
+Proof.
+  induction fs as [|f t IH]; cbn [map forallb]; [reflexivity|]. rewrite andb_true_iff. intros [A B]. rewrite (IH B), andb_true_r.
+  unfold set_del. destruct (N.eqb (f_id f) fid); [|exact A]. unfold frag_local in *. cbn [f_files f_del dr_base].
+  apply andb_true_iff in A as [A _]. rewrite A. reflexivity.
+Qed.
+
+Lemma add_files_local ns : forall fs, forallb frag_local fs = true -> forallb frag_local (add_files ns fs) = true.
+Proof.
+  induction ns as [|n t IH]; intros [|f fs] H; cbn [add_files]; try exact H.
+  cbn [forallb] in *. apply andb_true_iff in H as [A B]. rewrite (IH fs B), andb_true_r.
+  unfold frag_local in *. cbn [f_files f_del]. apply andb_true_iff in A as [A1 A2]. rewrite forallb_app, A1, A2. reflexivity.
+Qed.
+
+Lemma filter_local g fs : forallb frag_local fs = true -> forallb frag_local (filter g fs) = true.
+Proof.
+  rewrite !forallb_forall. intros H f Hf. apply filter_In in Hf as [Hf _]. apply H. exact Hf.
+Qed.
+
+Lemma man_local_parts m : man_local m = true <->
+  forallb frag_local (m_frags m) = true /\ forallb (fun i => match ix_base i with None => true | Some _ => false end) (m_indices m) = true.
+Proof. unfold man_local. apply andb_true_iff. Qed.
+
+Section Local.
+  Variable oracle : store -> N.
+
+  Lemma put_fresh_local r mk blobs s s' ns : all_local r s -> put_fresh oracle r mk blobs s = (s', ns) -> all_local r s'.
+  Proof. intros A E v m H. eapply A. eapply put_fresh_manifests; eassumption. Qed.
+
+  Lemma commit_local r s rv m : all_local r s -> man_local m = true -> all_local r (commit oracle r s rv m).
+  Proof.
+    intros A L v m0 H. unfold commit, put in H. destruct H as [H|[H|H]].
+    - inversion H; subst. exact L.
+    - inversion H.
+    - eapply A. exact H.
+  Qed.
+
+  Lemma open_local r s v m : all_local r s -> open r v s = Some m -> man_local m = true.
+  Proof.
+    intros A H. unfold open in H. destruct (get s (r, RManifest v)) as [[m0| |]|] eqn:E; try discriminate.
+    inversion H; subst. eapply A. apply get_In. exact E.
+  Qed.
+
+  Lemma step_local r s o : all_local r s -> all_local r (step oracle r s o).
+  Proof.
+    intro A. unfold step.
+    destruct o; try (destruct (open r (latest r s) s) as [cur|] eqn:Ec; [|exact A];
+                     pose proof (open_local r s _ cur A Ec) as L; apply man_local_parts in L as [LF LI]).
+    - destruct (put_fresh oracle r RData blobs s) as [s1 ns] eqn:E. apply commit_local; [eapply put_fresh_local; eassumption|].
+      apply man_local_parts. cbn [set_frags m_frags m_indices]. split; [|exact LI]. rewrite forallb_app, LF, new_frags_local. reflexivity.
+    - destruct (put_fresh oracle r (fun n => RDel fid (m_version cur) n) [dv] s) as [s1 ns] eqn:E.
+      apply commit_local; [eapply put_fresh_local; eassumption|].
+      apply man_local_parts. cbn [set_frags m_frags m_indices]. split; [|exact LI]. apply set_del_local. exact LF.
+    - destruct (put_fresh oracle r (fun n => RDel fid (m_version cur) n) [dv] s) as [s1 ds] eqn:E.
+      destruct (put_fresh oracle r RData blobs s1) as [s2 ns] eqn:E2.
+      apply commit_local; [eapply put_fresh_local; [eapply put_fresh_local|]; eassumption|].
+      apply man_local_parts. cbn [set_frags m_frags m_indices]. split; [|exact LI].
+      rewrite forallb_app, new_frags_local, set_del_local by exact LF. reflexivity.
+    - destruct (put_fresh oracle r RData blobs s) as [s1 ns] eqn:E. apply commit_local; [eapply put_fresh_local; eassumption|].
+      apply man_local_parts. cbn [set_frags m_frags m_indices]. split; [|exact LI].
+      rewrite forallb_app, new_frags_local, filter_local by exact LF. reflexivity.
+    - destruct (put_fresh oracle r RData (map (fun _ => blob) (m_frags cur)) s) as [s1 ns] eqn:E.
+      apply commit_local; [eapply put_fresh_local; eassumption|].
+      apply man_local_parts. cbn [set_meta set_frags m_frags m_indices]. split; [|exact LI]. apply add_files_local. exact LF.
+    - apply commit_local; [exact A|]. apply man_local_parts. cbn [set_meta m_frags m_indices]. split; assumption.
+    - destruct (put_fresh oracle r (fun n => RIndex n 0) [blob] s) as [s1 ns] eqn:E.
+      apply commit_local; [eapply put_fresh_local; eassumption|].
+      apply man_local_parts. cbn [set_indices m_frags m_indices]. split; [exact LF|]. rewrite forallb_app, LI. reflexivity.
+    - destruct (put_fresh oracle r RData blobs s) as [s1 ns] eqn:E. apply commit_local; [eapply put_fresh_local; eassumption|].
+      apply man_local_parts. cbn [set_meta set_indices set_frags m_frags m_indices forallb]. split; [apply new_frags_local | reflexivity].
+    - destruct (open r v s) as [old|] eqn:Eo; [|exact A]. apply commit_local; [exact A|].
+      pose proof (open_local r s _ old A Eo) as L. apply man_local_parts in L as [LF' LI'].
+      apply man_local_parts. cbn [set_frags m_frags m_indices]. split; assumption.
+    - apply commit_local; [exact A|]. apply man_local_parts. cbn [set_meta m_frags m_indices]. split; assumption.
+    - destruct (open r v s); [|exact A]. intros v0 m H. destruct H as [H|H]; [inversion H | eapply A; exact H].
+    - intros v m H. apply In_del in H. eapply A. exact H.
+    - intros v m H. unfold cleanup in H. apply fold_del_In in H. apply fold_del_In in H. eapply A. exact H.
+  Qed.
+
+  Lemma run_local r h : forall s, all_local r s -> all_local r (run oracle r h s).
+  Proof.
+    induction h as [|o t IH]; intros s A; unfold run; cbn [fold_left]; [exact A|]. apply IH. apply step_local. exact A.
+  Qed.
+End Local.
